@@ -256,6 +256,10 @@ def job_tabulated(job, n, order, node=1):
         job.errors.append(f"tabulated[{n},{order}]: no constructing path has a reachability witness (vacuous harness?)")
 
 
+# concrete replays run on the real code when the changed code uses something the engine does not model (harness.finish)
+FALLBACK = [(replay_c, {}), (replay_c, {"mode": "constant"}), (replay_c, {"mode": "phi"}), (replay_lambda, {}), (replay_tabulated, {}), (replay_tabulated, {"order": "descending"})]
+
+
 def jobs(tier):
     out = [("storage", job_storage), ("tabulated-3-asc", lambda j: job_tabulated(j, 3, "ascending")),
            ("tabulated-3-desc", lambda j: job_tabulated(j, 3, "descending"))]
